@@ -420,10 +420,40 @@ def run(ctx):
                  f"cpu_freq() without percpu is not the mean over CPUs: {txts} {sorted(acct)}")
     cc = repo.func("psutil", "cpu_count")
     ccfg = A.cfg(cc)
-    okc = any(n.kind == "stmt" and isinstance(n.stmt, ast.Assign)
-              and norm_stmt(n.stmt).replace(" ", "") == "ret=None"
-              and any(norm_stmt(e).replace(" ", "") == "retisnotNoneandret<1" and p is True
-                      for e, p, _ in ccfg.guards(n)) for n in ccfg.nodes)
+    # decided on what is returned for each kind of platform answer (None, 0, negative,
+    # positive), whatever the spelling: the variable holding the platform answer is the
+    # one assigned from the _psplatform call(s)
+    from .c15 import eval_pred as _ep2
+    cvars = {r_.value.id for r_ in ast.walk(cc.node) if isinstance(r_, ast.Return)
+             and isinstance(r_.value, ast.Name)}
+    okc = bool(cvars)
+    for val, want_none in ((None, True), (0, True), (-1, True), (1, False), (8, False)):
+        outcome = None
+        for n in ccfg.nodes:
+            if n.kind != "return":
+                continue
+            reach = True
+            for e_, p_, _ in ccfg.guards(n):
+                if not ({x_.id for x_ in ast.walk(e_) if isinstance(x_, ast.Name)} & cvars):
+                    continue
+                r_ = _ep2(e_, {v_: val for v_ in cvars})
+                if r_ in (True, False) and r_ is not p_:
+                    reach = False
+            if not reach:
+                continue
+            v_ = n.stmt.value
+            # was the variable overwritten with None on this path?
+            setnone = any(m.kind == "stmt" and isinstance(m.stmt, ast.Assign)
+                          and dotted(m.stmt.targets[0]) in cvars
+                          and isinstance(m.stmt.value, ast.Constant) and m.stmt.value.value is None
+                          and all((_ep2(e2, {x: val for x in cvars}) in (p2, None, "TypeError"))
+                                  for e2, p2, _ in ccfg.guards(m))
+                          and ccfg.path_exists(m, n) for m in ccfg.nodes)
+            is_none = v_ is None or (isinstance(v_, ast.Constant) and v_.value is None) or setnone \
+                or (val is None and dotted(v_) in cvars)
+            outcome = is_none if outcome is None else (outcome and is_none if want_none else outcome or is_none)
+        if outcome is None or outcome != want_none:
+            okc = False
     if okc:
         ctx.ok("C19.R3", "cpu_count", sample="ret < 1 -> None")
     else:
